@@ -7,6 +7,8 @@ use serde_json::Value;
 use crate::{
     runner::{finish_check, replay_plan, run_batch, threads, BatchCfg, BatchOut, CheckOut, Cx, Scenario, Tier},
     scen::offer::{Mode as OfferMode, Offer},
+    scen::actor::ActorScen,
+    scen::crash::Crash,
     scen::docs::{Docs, Mode as DocsMode},
     scen::forge::Forge,
     scen::pair::{Mode as PairMode, Pair},
@@ -29,14 +31,21 @@ pub fn run_property(prop: &str, tier: Tier, seed: u64, scale: f64) -> i32 {
     let wall = Instant::now();
     let mut extra: BTreeMap<String, Value> = BTreeMap::new();
     let mut assumptions: Vec<String> = ASSUME_COMMON.iter().map(|s| s.to_string()).collect();
-    let level = "exploration";
-    let exhaustive = None;
+    let mut level = "exploration";
+    let mut exhaustive = None;
     let batches: Vec<BatchOut> = match prop {
         "C02" => vec![batch(&Offer { mode: OfferMode::State }, tier, seed, 60_000, 1_500_000, scale)],
         "C01" => vec![batch(&Pair { mode: PairMode::Converge }, tier, seed, 40_000, 1_000_000, scale)],
         "C03" => vec![batch(&Forge, tier, seed, 40_000, 1_000_000, scale)],
         "C05" => vec![batch(&QueryScen, tier, seed, 40_000, 1_000_000, scale)],
+        "C06" => {
+            level = "fault_enumeration";
+            exhaustive = Some(false);
+            extra.insert("exhaustive_scope".into(), serde_json::json!("per sampled history the crash-point x loss-model (L1,L2) x single age-commit placement space is enumerated completely; the histories themselves (and L3/torn/EIO/double placements) are sampled"));
+            vec![batch(&Crash, tier, seed, 1_500, 20_000, scale)]
+        }
         "C07" => vec![batch(&Docs { mode: DocsMode::Cap }, tier, seed, 40_000, 1_000_000, scale)],
+        "C14" => vec![batch(&ActorScen, tier, seed, 30_000, 800_000, scale)],
         "C15" => vec![batch(&Docs { mode: DocsMode::Policy }, tier, seed, 40_000, 1_000_000, scale)],
         "C16" => vec![batch(&Docs { mode: DocsMode::Remove }, tier, seed, 30_000, 800_000, scale)],
         "C17" => vec![
@@ -61,6 +70,8 @@ fn replay_dispatch(prop: &str, scenario: &str, plan: Value) -> Result<(Option<cr
         (_, "offer-heads") => replay_plan(&Offer { mode: OfferMode::Heads }, plan),
         (_, "forge") => replay_plan(&Forge, plan),
         (_, "query") => replay_plan(&QueryScen, plan),
+        (_, "actor") => replay_plan(&ActorScen, plan),
+        (_, "crash") => replay_plan(&Crash, plan),
         (_, "docs-cap") => replay_plan(&Docs { mode: DocsMode::Cap }, plan),
         (_, "docs-policy") => replay_plan(&Docs { mode: DocsMode::Policy }, plan),
         (_, "docs-remove") => replay_plan(&Docs { mode: DocsMode::Remove }, plan),
@@ -163,7 +174,9 @@ pub fn determinism(prop: Option<&str>, seeds: u64) -> i32 {
     if all || p == "C13" { twice(&Offer { mode: OfferMode::Heads }, seeds, &mut bad); }
     if all || p == "C03" { twice(&Forge, seeds, &mut bad); }
     if all || p == "C05" { twice(&QueryScen, seeds, &mut bad); }
+    if all || p == "C06" { twice(&Crash, seeds.min(60), &mut bad); }
     if all || p == "C07" { twice(&Docs { mode: DocsMode::Cap }, seeds, &mut bad); }
+    if all || p == "C14" { twice(&ActorScen, seeds, &mut bad); }
     if all || p == "C15" { twice(&Docs { mode: DocsMode::Policy }, seeds, &mut bad); }
     if all || p == "C16" { twice(&Docs { mode: DocsMode::Remove }, seeds, &mut bad); }
     if all || p == "C17" { twice(&Docs { mode: DocsMode::Peers }, seeds, &mut bad); twice(&Docs { mode: DocsMode::PeersClockFault }, seeds, &mut bad); }
